@@ -4,6 +4,9 @@
 # /repo and /verif (removed afterwards). One report file per patch in <outdir>.
 # Used for behaviour-preserving refactorings: every reported violation that is
 # not a known finding is a false alarm to investigate.
+# /tmp/vtmp should hold a copy of known_findings.json and a link to /verif/controls so that the
+# positive controls run against the patched tree too (a control that no longer fires is reported
+# as CHECKER-PROBLEM: a false alarm of the checker on a behaviour-preserving patch).
 # usage: check_patches.sh <root> <outdir> [jobs] [with-suite]
 root=$1; out=$2; jobs=${3:-3}; suite=${4:-}
 mkdir -p "$out"
@@ -18,7 +21,7 @@ one() {
   if ! (cd "$ws" && go build ./... >>"$rep" 2>&1); then echo "BUILD FAILS" >> "$rep"; rm -rf "$ws"; return; fi
   if [ -n "$suite" ]; then (cd "$ws" && go test -vet=off -count=1 ./... >/dev/null 2>&1) || echo "SUITE FAILS" >> "$rep"; fi
   for i in $(seq -w 1 20); do
-    timeout 600 /verif/bin/sqljsonlint -prop C$i -repo "$ws" -verif /tmp/vtmp 2>&1 | grep -E '^(VIOLATION rule|UNDECIDED|LOAD ERROR|ANALYSIS-FAILED|panic|goroutine )' | sed "s/^/C$i /" | cut -c1-400 >> "$rep"
+    timeout 600 /verif/bin/sqljsonlint -prop C$i -repo "$ws" -verif /tmp/vtmp 2>&1 | grep -E '^(VIOLATION rule|UNDECIDED|LOAD ERROR|ANALYSIS-FAILED|CHECKER-PROBLEM|panic|goroutine )' | sed "s/^/C$i /" | cut -c1-400 >> "$rep"
   done
   rm -rf "$ws"
   echo "checked $name"
